@@ -236,6 +236,13 @@ class Skeleton:
             if c is None:
                 c = self._formula(e.test)
             return b.ite(c, self._formula(e.body), self._formula(e.orelse))
+        if isinstance(e, ast.Compare) and len(e.ops) == 1 and isinstance(e.ops[0], (ast.In, ast.NotIn)) \
+                and isinstance(e.comparators[0], (ast.Tuple, ast.List, ast.Set)) and e.comparators[0].elts:
+            # membership in a literal display is the disjunction of the equalities
+            out = 0
+            for x in e.comparators[0].elts:
+                out = b.OR(out, self._formula(ast.Compare(left=e.left, ops=[ast.Eq()], comparators=[x])))
+            return b.NOT(out) if isinstance(e.ops[0], ast.NotIn) else out
         if isinstance(e, ast.Compare) and len(e.ops) > 1:
             parts = []
             left = e.left
@@ -310,6 +317,8 @@ class Skeleton:
             if isinstance(e, ast.Call) and isinstance(e.func, ast.Name) and e.func.id == "bool" and len(e.args) == 1:
                 text = U(e.args[0])
         self.atoms[text] = self.atoms.get(text, 0) + 1
+        self.atom_nodes = getattr(self, "atom_nodes", {})
+        self.atom_nodes.setdefault(text, e)
         v = b.var(text)
         return b.NOT(v) if neg else v
 
@@ -334,16 +343,102 @@ def _clone_keep(node, keep=None):
     return new
 
 
-def compare(code_func, spec_func, axioms=()):
+def _theory(atom_nodes, bases=None):
+    """Pairs of atoms that cannot both be true (the atoms are otherwise treated as independent booleans):
+    one expression equal to two different literals; one subject an instance of two unrelated classes; `E is None` together
+    with an equality of E to a literal, an isinstance test of E, or any atom that dereferences E."""
+    bases = bases or {}
+    eq_lit, inst, none = {}, {}, {}
+    for text, e in atom_nodes.items():
+        if isinstance(e, ast.Compare) and len(e.ops) == 1:
+            l, r, op = e.left, e.comparators[0], e.ops[0]
+            if isinstance(op, (ast.Eq, ast.NotEq)):
+                for a, c in ((l, r), (r, l)):
+                    if isinstance(c, ast.Constant) and c.value is not None and not isinstance(a, ast.Constant):
+                        eq_lit.setdefault(U(a), []).append((text, repr(c.value)))
+            if isinstance(op, (ast.Is, ast.IsNot, ast.Eq, ast.NotEq)):
+                for a, c in ((l, r), (r, l)):
+                    if isinstance(c, ast.Constant) and c.value is None:
+                        none[U(a)] = text
+        elif isinstance(e, ast.Call) and isinstance(e.func, ast.Name) and e.func.id == "isinstance" and len(e.args) == 2 \
+                and isinstance(e.args[1], ast.Name):
+            inst.setdefault(U(e.args[0]), []).append((text, e.args[1].id))
+    out = []
+    for subj, lst in eq_lit.items():
+        for i, (t1, v1) in enumerate(lst):
+            for t2, v2 in lst[i + 1:]:
+                if v1 != v2:
+                    out.append((t1, t2))
+    def related(c1, c2):
+        return c1 == c2 or c2 in bases.get(c1, ()) or c1 in bases.get(c2, ()) or c1 in ("dict", "object") or c2 in ("dict", "object") \
+            or c1 not in bases or c2 not in bases
+    for subj, lst in inst.items():
+        for i, (t1, c1) in enumerate(lst):
+            for t2, c2 in lst[i + 1:]:
+                if not related(c1, c2):
+                    out.append((t1, t2))
+    for subj, tnone in none.items():
+        for text, e in atom_nodes.items():
+            if text == tnone:
+                continue
+            derefs = any(isinstance(n, (ast.Attribute, ast.Subscript)) and U(n.value) == subj for n in ast.walk(e))
+            isinst = isinstance(e, ast.Call) and isinstance(e.func, ast.Name) and e.func.id == "isinstance" and e.args and U(e.args[0]) == subj
+            eqlit = any(t == text for t, _ in eq_lit.get(subj, []))
+            if derefs or isinst or eqlit:
+                out.append((tnone, text))
+    return out
+
+
+def _congruence(atom_nodes):
+    """Forbidden combinations (atoms true, atoms false) from the congruence of == with literals."""
+    lit = {}      # (subject text, literal repr) -> atom text
+    var = {}      # frozenset({A, B}) -> atom text
+    for text, e in atom_nodes.items():
+        if isinstance(e, ast.Compare) and len(e.ops) == 1 and isinstance(e.ops[0], (ast.Eq, ast.NotEq)):
+            l, r = e.left, e.comparators[0]
+            if isinstance(r, ast.Constant) and r.value is not None and not isinstance(l, ast.Constant):
+                lit[(U(l), repr(r.value))] = text
+            elif isinstance(l, ast.Constant) and l.value is not None and not isinstance(r, ast.Constant):
+                lit[(U(r), repr(l.value))] = text
+            elif not isinstance(l, ast.Constant) and not isinstance(r, ast.Constant):
+                var[frozenset((U(l), U(r)))] = text
+    out = []
+    for pair, tv in var.items():
+        if len(pair) != 2:
+            continue
+        a, b = sorted(pair)
+        consts = {c for (s, c) in lit if s in (a, b)}
+        for c in consts:
+            ta, tb = lit.get((a, c)), lit.get((b, c))
+            if ta and tb:
+                out.append(([ta, tb], [tv]))
+                out.append(([tv, ta], [tb]))
+                out.append(([tv, tb], [ta]))
+    return out
+
+
+def compare(code_func, spec_func, axioms=(), bases=None):
     """Compare two decision functions. Returns (equal, info)."""
     bdd = BDD()
     sk_spec = Skeleton(spec_func, bdd)
     sk_code = Skeleton(code_func, bdd)
     diff = bdd.XOR(sk_code.result, sk_spec.result)
     # axioms: pairs (a, b) of atom texts that cannot both be true
-    for a, bb in axioms:
+    nodes = dict(getattr(sk_spec, "atom_nodes", {}))
+    nodes.update(getattr(sk_code, "atom_nodes", {}))
+    theory = list(axioms) + _theory(nodes, bases)
+    for a, bb in theory:
         if a in bdd.var_index and bb in bdd.var_index:
             diff = bdd.AND(diff, bdd.NOT(bdd.AND(bdd.var(a), bdd.var(bb))))
+    # congruence of equality with literals: (A == c) and (B == c) imply (A == B); (A == B) and (A == c) imply (B == c)
+    for pos, neg in _congruence(nodes):
+        if all(t in bdd.var_index for t in pos + neg):
+            cube = 1
+            for t in pos:
+                cube = bdd.AND(cube, bdd.var(t))
+            for t in neg:
+                cube = bdd.AND(cube, bdd.NOT(bdd.var(t)))
+            diff = bdd.AND(diff, bdd.NOT(cube))
     info = {
         "atoms_code": len(sk_code.atoms), "atoms_spec": len(sk_spec.atoms),
         "bdd_nodes": bdd.count_nodes(sk_code.result),
